@@ -6,8 +6,8 @@ BASE = ("cd /repo && /venv/bin/python -m pytest -ra -q -p no:cacheprovider --tim
         "--continue-on-collection-errors")
 TRUST = ("Trusted base: the DetLoop (virtual-time asyncio loop, FIFO ready queue preserved), the stub "
          "simulators, the in-memory transport under the real asyncio streams / mosaik_api_v3 Channel, "
-         "and the independent reference model RM (dsim/refmodel.py). Bounds: <=5 simulators, group depth "
-         "<=3, until <=8 (quick) / <=14 (thorough). Sampling, not enumeration: a clean batch is evidence, not proof.")
+         "and the independent reference model RM (dsim/refmodel.py). Bounds: <=5 simulators (6 in "
+         "thorough, 9 in C06's dense graphs), group depth <=3, until <=10 (quick) / <=20 (thorough). Sampling, not enumeration: a clean batch is evidence, not proof.")
 CHECKS = {
  "C01": ("exploration", "core", "seeded search over scenarios x latency schedules; online oracle with RM arrival times: no feeder step with arr<=tau open or begun later than a consumer step at tau", "6.C01",
          "deterministic simulation: seeded schedule search + RM history oracle"),
